@@ -589,4 +589,51 @@ theorem save_path_examples :
     savePath "a.b:c".toList "xml".toList = "a.b:c.xml".toList := by
   decide
 
+/-! ## 8. However many issues, wherever the error sits; whichever name the earlier file has
+
+(Strengthening round 5.) The two clauses once more in the shape in which two seeded changes broke
+them: the refusal does not depend on how many issues of rank warning stand in front of or behind
+the error, and a failing `odml.save` under a name that it completes itself (`session` →
+`session.xml`) leaves the file of the completed name — written by an earlier save — alone. -/
+
+/-- One error among any number of other issues, at any position of the list the validation
+    returns, is enough. -/
+theorem hasError_anywhere (pre post : List Rank) : hasError (pre ++ Rank.error :: post) = true := by
+  simp [hasError, List.any_append]
+
+/-- `ODMLWriter.write_file` and `odml.save` refuse a document whose validation yields an error
+    behind `pre` and in front of `post`, for lists `pre`, `post` of any length and content
+    (20 warnings, 1000 warnings, …): `ParserException`, the file system as it was. -/
+theorem error_anywhere_never_written {Doc} (env : Env Doc) (d : Doc) (pre post : List Rank)
+    (hv : env.validate d = .ok (pre ++ Rank.error :: post))
+    (f : Option (List Char)) (p : Path) (fs : Fs) :
+    (∀ b : Backend, odmlWriterWriteFile env b f d p fs = (fs, .raised .parserException)) ∧
+    (∀ backend : List Char, (parseBackend backend).isSome = true →
+      fileioSave env backend f d p fs = (fs, .raised .parserException)) :=
+  ⟨fun b => invalid_never_written env d _ hv (hasError_anywhere pre post) b f p fs,
+   fun backend hb => invalid_never_written_save env d _ hv (hasError_anywhere pre post) backend hb f p fs⟩
+
+/-- A failing `odml.save` harms neither the file of the name handed in nor the file of the name it
+    derives from it (`savePath`), whether or not either exists. -/
+theorem failed_save_keeps_completed_name {Doc} (env : Env Doc) (backend : List Char)
+    (f : Option (List Char)) (d : Doc) (p : Path) (fs : Fs) (e : Exc)
+    (h : (fileioSave env backend f d p fs).2 = .raised e) :
+    (fileioSave env backend f d p fs).1 (savePath p backend) = fs (savePath p backend) ∧
+    (fileioSave env backend f d p fs).1 p = fs p := by
+  have hfr := failed_save_frame env (.fileio backend f) d p fs e h
+  simp only [Entry.run] at hfr
+  rw [hfr]; exact ⟨rfl, rfl⟩
+
+/-- Saved, then saved again under the same name by a save that fails (another document, another
+    environment — the document has become invalid, a text cannot be rendered, …): the file the
+    first save wrote holds the text of the first save. -/
+theorem resave_failure_keeps_first_save {Doc} (env₁ env₂ : Env Doc) (backend : List Char)
+    (f₁ f₂ : Option (List Char)) (d₁ d₂ : Doc) (p : Path) (fs : Fs) (e : Exc)
+    (h₂ : (fileioSave env₂ backend f₂ d₂ p (fileioSave env₁ backend f₁ d₁ p fs).1).2 = .raised e) :
+    (fileioSave env₂ backend f₂ d₂ p (fileioSave env₁ backend f₁ d₁ p fs).1).1 (savePath p backend)
+      = (fileioSave env₁ backend f₁ d₁ p fs).1 (savePath p backend) :=
+  (failed_save_keeps_completed_name env₂ backend f₂ d₂ p _ e h₂).1
+
+example : hasError ((List.replicate 24 Rank.warning) ++ Rank.error :: []) = true := by decide
+
 end C07
